@@ -17,6 +17,7 @@ import InToto.Proofs.RulesMore
 import InToto.Proofs.Subst
 import InToto.Proofs.Cert
 import InToto.Proofs.CleanOrder
+import InToto.Proofs.RulesAllNames
 
 namespace InToto.C10
 open InToto InToto.Schema InToto.Metadata InToto.Verify InToto.PipeProofs
@@ -64,8 +65,9 @@ theorem clean_up_survivor (l : List (Str × Rules.HashObj)) (hn : (l.map Prod.fs
   CleanOrder.cleanArts_lookup_iff l hn c v
 
 /-- a whole MATCH rule does not see the order of any artifact map of any link: same consumed
-    artifacts, and the link context it leaves behind (maps cleaned in place) is again a listing of the
-    same maps - so the statement composes over a rule list. -/
+    artifacts, and the link context it hands back (the context as it came: the clean-up works on
+    copies, see `rule_verification_leaves_links_untouched`) is again a listing of the same maps - so
+    the statement composes over a rule list. -/
 theorem match_rule_map_order (glob : Str → Str → Bool) (pattern srcPrefix dstPrefix : Str) (dstType : Rules.ArtType)
     (dstName srcName : Str) (srcType : Rules.ArtType) (queue : List Str) (ctx₁ ctx₂ : Rules.Ctx)
     (h : CleanOrder.CtxPermEq ctx₁ ctx₂) :
@@ -83,6 +85,24 @@ example :
     let y : Rules.HashObj := some [("sha256".toList, "1".toList)]
     Rules.cleanArts (some [("./d/a".toList, x), ("./d/a/.".toList, x), ("d/a/".toList, y)]) = some [("d/a".toList, y)] ∧
     Rules.cleanArts (some [("d/a/".toList, y), ("./d/a/.".toList, x), ("./d/a".toList, x)]) = some [("d/a".toList, y)] := by
+  decide
+
+/-- VerifyArtifacts never writes to the links it verifies, whatever their artifact names (finding F22, repaired): the clean-up of names works on copies. The links handed to the summary are the links that were counted. -/
+theorem rule_verification_leaves_links_untouched (glob : Str → Str → Bool) (items : List Rules.Item)
+    (ctx ctx' : Rules.Ctx) (h : Rules.verifyArtifacts glob items ctx = .ok ctx') : ctx' = ctx :=
+  RulesAllNames.verifyArtifacts_leaves_links_untouched glob items ctx ctx' h
+
+/-- non-vacuity (the witness of F22): material `./a` (hash 1), product `./a` (hash 2); `MODIFY *`
+    consumes `a` (the names are cleaned for the comparison), `DISALLOW *` finds nothing, the run
+    succeeds - and the link still records `./a` afterwards -/
+example :
+    Rules.verifyArtifacts Rules.goGlob
+      [{ name := lit% "s", expMaterials := [],
+         expProducts := [[lit% "MODIFY", lit% "*"], [lit% "DISALLOW", lit% "*"]] }]
+      [(lit% "s", some { materials := some [(lit% "./a", some [(lit% "sha256", lit% "1")])],
+                          products := some [(lit% "./a", some [(lit% "sha256", lit% "2")])] })]
+      = .ok [(lit% "s", some { materials := some [(lit% "./a", some [(lit% "sha256", lit% "1")])],
+                                products := some [(lit% "./a", some [(lit% "sha256", lit% "2")])] })] := by
   decide
 
 /-- parameter dictionary: substitution does not depend on its order -/
